@@ -98,10 +98,16 @@ def body_raises(case):
     return any(s[0] == 'raise' for s in case['body'])
 
 
+DOCUMENTED_DEFAULTS = {'text_mode': False, 'overwrite': True, 'buffering': -1, 'overwrite_part': False, 'rm_part_on_exc': True}
+
+
 def kwargs_of(case):
     kw = {}
     for k in ('text_mode', 'overwrite', 'part_file', 'buffering', 'file_perms', 'overwrite_part', 'rm_part_on_exc'):
         if k in case and case[k] is not None:
+            if case.get('omit_defaults') and k in DOCUMENTED_DEFAULTS and case[k] == DOCUMENTED_DEFAULTS[k] \
+                    and type(case[k]) is type(DOCUMENTED_DEFAULTS[k]):
+                continue        # the caller relies on the documented default instead of spelling it out
             kw[k] = case[k]
     return kw
 
@@ -139,6 +145,7 @@ class Result:
 
 
 WARM_BYTES = b'EARLIER SAVE BY THE SAME SAVER'
+OTHER_CWD = '/sim'      # the parent of DIR: where the process goes when it changes directory
 WARM_TEXT = 'EARLIER SAVE BY THE SAME SAVER'
 
 
@@ -212,11 +219,19 @@ def run_save(case, plan=None, log=None, hooks=None, fs=None, only_warmup=False):
     if only_warmup or r.exc is not None:
         sim.dispose()
         return r
+    if case.get('chdir') == 'before_enter':
+        fs.cwd = OTHER_CWD           # the process changes its working directory (a daemon's chdir('/'))
+        if log is not None:
+            log.add('chdir', OTHER_CWD)
     try:
         with saver as f:
             r.entered = True
             for step in case['body']:
-                if step[0] == 'write':
+                if step[0] == 'chdir':
+                    fs.cwd = OTHER_CWD
+                    if log is not None:
+                        log.add('chdir', OTHER_CWD)
+                elif step[0] == 'write':
                     data = step[1] if case.get('text_mode') else bytes.fromhex(step[1])
                     n = f.write(data)
                     # an unbuffered (raw) file may accept only part of the data: a correct
@@ -388,6 +403,15 @@ def gen_workload(rng, faults=False):
         case['ctx'] = 'handler'     # the save is made while another exception is being handled
     if rng.random() < 0.15:
         case['entry'] = 'class'     # AtomicSaver(...) instead of atomic_save(...)
+    if rng.random() < 0.3:
+        case['omit_defaults'] = True    # keyword arguments equal to the documented defaults are not passed
+    if faults and case['dest_rel'] and rng.random() < 0.3:
+        # a relative destination names a file in the working directory *at construction*; the process changes
+        # directory afterwards (before entering the with-block, or inside the body)
+        if rng.random() < 0.5:
+            case['chdir'] = 'before_enter'
+        else:
+            case['body'].insert(rng.randint(0, len(case['body'])), ['chdir'])
     if faults and rng.random() < 0.25:
         case['other_thread'] = True     # C05 also lets another thread save another file at every point of this save
     return case
